@@ -15,7 +15,7 @@ pub struct Chunk { _p: () }
 #[verifier::external_body]
 pub struct Context { _p: () }
 pub struct Template { pub chunk: Chunk, pub vx_opaque: VxOpaque }
-pub struct Tera { pub filters: VxOpaque, pub vx_opaque: VxOpaque }
+pub struct Tera { pub filters: VxOpaque, pub global_context: Context, pub vx_opaque: VxOpaque }
 impl Tera {
     #[verifier::external_body]
     pub fn must_get_template(&self, name: &str) -> TeraResult<&Template> { unimplemented!() }
@@ -23,13 +23,14 @@ impl Tera {
 pub struct State<'t> {
     pub context: &'t Context,
     pub filters: Option<&'t VxOpaque>,
+    pub global_context: Option<&'t Context>,
     pub include_parent: Option<&'t State<'t>>,
     pub vx_opaque: VxOpaque,
 }
 impl<'t> State<'t> {
     #[verifier::external_body]
     pub fn new_with_chunk(context: &'t Context, chunk: &'t Chunk) -> (r: Self)
-        ensures r.context == context, r.include_parent is None
+        ensures r.context == context, r.include_parent is None, r.global_context is None
     { unimplemented!() }
 }
 #[verifier::external_body]
